@@ -74,6 +74,14 @@ CHECKS["C09"] = dict(
          "is read from the AST and driven with a stub generator.",
     design="5 C09", technique="Lean 4 proof over list model + stub-generator correspondence")
 
+CHECKS["C17"] = dict(
+    text="Theorems (any shell, any spectra; Mathlib Finset sums): num^2 <= sum|F1|^2 sum|F2|^2, symmetry, "
+         "invariance under positive rescaling, self correlation 1, label <-> half-open shell of the "
+         "requested width, shell mid-point frequencies, default width, loader halves disjoint / "
+         "exhaustive / non-empty (via C09). FFT and sum_labels are parameters: the model's exact shell "
+         "labels are used to recompute the FSC and compared with the real function.",
+    design="5 C17", technique="Lean 4 proof (Cauchy-Schwarz per shell) + exact shell-label model correspondence")
+
 NOT_YET = {}
 
 
